@@ -118,59 +118,52 @@ func VerifH_StaticChecks() {
 
 // ---- C18 banned directives ----
 
-var verifMenuBanned = []int{tInfo, tTitle, tServer, tURL, tGet, tPost, tGetPath, tResp200, tTypeAny, tTag, tMacro, tPaste}
-
-func refDocKinds(lines []refLine) map[directive.Enumeration]bool {
-	m := map[directive.Enumeration]bool{}
-	for _, ln := range lines {
-		m[refKind(ln.t)] = true
-	}
-	return m
-}
+var verifMenuBanned = []int{tInfo, tTitle, tServer, tURL, tGet, tPost, tGetPath, tResp200, tTypeAny, tTag, tMacro, tPaste, tIncludeFile, tIncludeMissing}
 
 // VerifH_Banned (C18): with one directive kind banned, a document in which
-// that kind occurs (directly, or as MACRO / PASTE) is rejected with the
-// 'directive not allowed' diagnostic located at a directive of that kind; a
-// document without it gives exactly the result it gives without the option.
+// that kind occurs (directly, as MACRO / PASTE, as INCLUDE) is rejected with
+// the 'directive not allowed' diagnostic located at the first directive of
+// that kind - whatever follows it, and before any file is read for it - provided
+// the document up to that directive is itself free of faults; a document without
+// the banned kind gives exactly the result it gives without the option.
 func VerifH_Banned() {
 	k := verifrt.Bound("K")
-	text, lines := verifDocLines(verifMenuBanned, k, true)
+	_, lines := verifDocLines(verifMenuBanned, k, true)
+	text := verifRender(lines)
 	verifrt.Note("doc", text)
 	bannedT := verifMenuBanned[verifrt.Choice("banned", len(verifMenuBanned))]
 	banned := refKind(bannedT)
 	verifrt.Note("banned", banned.String())
-	core0, je0 := verifRun(text)
-	core1, je1 := verifRun(text, WithBannedDirectives(banned))
-	if !refResolveLines(lines) {
-		return
-	}
-	occurs := false
-	var offs []int
-	all := refLineOffsets(lines)
+	verifFiles = map[string][]byte{verifDir + "/inc.jst": []byte("ENUM @c\n")}
+	first := -1
 	for i, ln := range lines {
 		if refKind(ln.t) == banned {
-			occurs = true
-			offs = append(offs, all[i])
+			first = i
+			break
 		}
 	}
-	if occurs {
-		// the document would have to be acceptable otherwise for the ban to be the reason
-		if je0 == nil {
-			verifrt.Assert("C18.banned-rejected", je1 != nil)
-			if je1 != nil {
-				verifrt.Assert("C18.banned-message", strings.Contains(je1.Msg, jerr.DirectiveNotAllowed))
-				at := false
-				for _, o := range offs {
-					if int(je1.Index()) == o {
-						at = true
-					}
-				}
-				verifrt.Assert("C18.banned-located", at)
-			}
-			verifrt.Reach("C18.banned-occurs", true)
+	if first >= 0 {
+		// is the document fault-free up to the banned directive?
+		_, jePrefix := verifRun(verifRender(lines[:first]))
+		if jePrefix != nil {
+			verifrt.Stop()
 		}
+		verifReadCalls = nil
+		_, je1 := verifRun(text, WithBannedDirectives(banned))
+		verifrt.Assert("C18.banned-rejected", je1 != nil)
+		if je1 != nil {
+			verifrt.Note("diagnostic", je1.Msg)
+			verifrt.Assert("C18.banned-message", strings.Contains(je1.Msg, jerr.DirectiveNotAllowed))
+			verifrt.Assert("C18.banned-located", int(je1.Index()) == refLineOffsets(lines)[first])
+		}
+		if banned == directive.Include {
+			verifrt.Assert("C18.banned-include-no-file-read", len(verifReadCalls) == 0)
+		}
+		verifrt.Reach("C18.banned-occurs", true)
 		return
 	}
+	core0, je0 := verifRun(text)
+	core1, je1 := verifRun(text, WithBannedDirectives(banned))
 	verifrt.Assert("C18.unrelated-same-verdict", (je0 == nil) == (je1 == nil))
 	if je0 != nil && je1 != nil {
 		verifrt.Assert("C18.unrelated-same-error", je0.Msg == je1.Msg && je0.Index() == je1.Index())
@@ -196,21 +189,22 @@ const (
 func verifFreshText(kind int) string {
 	switch kind {
 	case freshServer:
-		return "SERVER @c // s\n"
+		return "SERVER @a1 // s\n"
 	case freshTag:
-		return "TAG @c // tt\n"
+		return "TAG @a1 // tt\n"
 	case freshType:
-		return "TYPE @c any // t\n"
+		return "TYPE @a1 any // t\n"
 	case freshMacro:
-		return "MACRO @c\n(\nGET /c\n)\n"
+		return "MACRO @a1\n(\nGET /a1\n)\n"
 	case freshMethod:
-		return "GET /c\n200 any // ok\n"
+		return "GET /a1\n200 any // ok\n"
 	}
 	return ""
 }
 
 func refMentionsFresh(s string) bool {
-	return strings.Contains(s, "@c") || strings.Contains(s, "/c")
+	// fresh names share a string prefix (not a path segment) with the names of the document: @a1, /a1
+	return strings.Contains(s, "@a1") || strings.Contains(s, "/a1")
 }
 
 // VerifH_Locality (C20): adding to an accepted document a well-formed
